@@ -5,9 +5,13 @@ import TongoProofs.Lemmas.TlbPrims
 `TlbSchema.parse` reads the TL-B text subset of `tlb/parser` / `abi/schemas`; `goBody` is the reflection descriptor of
 the Go struct that `tlb/parser.GenerateGolangTypes` must emit for a declared type (compared EXACTLY with the descriptor
 extracted by reflection from the compiled generator output: op `tlbs.desc`), `specBody` is the TL-B prescription in
-C04's schema language (`Spec.SType`, semantics `specChunk`). The theorems connect the two through the model of the
-reflection codec (`Tlb.encode` / `Tlb.decode`, properties C03/C04). The generator itself is not modelled: it is tied
-to `goBody` by translation validation over sampled schemas (harness c09tlb.go). -/
+C04's schema language (`Spec.SType`, semantics `specChunk`). NOTE: `goBody` and `specBody` are two translations of the
+same parsed declaration written by the same author for this verification; `tlb_schema_sound` says that these twin
+translations are CONSISTENT through the model of the reflection codec (`Tlb.encode` / `Tlb.decode`, properties
+C03/C04) — it guards against a descriptor convention (tag class, pointer, Magic field, EitherRef, key type) that the codec
+would serialise differently from what the declaration says, not against a misreading of TL-B common to both
+translations. The generator itself is not modelled and no theorem mentions its output: it is tied to `goBody` by
+translation validation over sampled schemas (harness c09tlb.go). -/
 namespace Tongo.C09Tlb
 open Tongo Tongo.Tlb Tongo.Tlb.Spec Tongo.TlbSchema
 
@@ -16,7 +20,7 @@ theorem idxOf_lt_of_contains (names : List String) (t : String) (h : names.conta
   apply List.findIdx_lt_length_of_exists
   exact ⟨t, by simpa using h, by simp⟩
 
-/-- **tlb_schema_sound**: for EVERY schema of the subset (`TSchema.ok`: supported widths, tags of at most 32 bits,
+/-- **tlb_schema_sound** (consistency of the two readings `goBody` / `specBody` of a declaration, see the header): for EVERY schema of the subset (`TSchema.ok`: supported widths, tags of at most 32 bits,
 references to earlier declared types) and every declared type `t`: whatever the reflection codec, run on the
 descriptor the declaration denotes, appends to a cell for an in-domain value is exactly the chunk of bits and
 references the TL-B declaration prescribes (`specChunk` on `specEnv`). Induction over the declared types, their
@@ -63,15 +67,22 @@ theorem goBody_struct_or_sum (names : List String) (cs : List TDecl) :
     · exact Or.inl ⟨.cons "Magic" .plain (.magic (some (goTag d.tag))) (goFields names d.fields), by simp [goBody, h]⟩
   · exact Or.inr ⟨_, rfl⟩
 
-/-- **tlb_schema_roundtrip** (from C03's `decode_encode` machinery): if the descriptors of the schema pass C03's
-decidable well-formedness check (`envOk`: prefix-free constructor tags, greedy types in tail position only, …;
-evaluated for every generated schema by op `tlbs.ok`), then for every declared type a cell produced by the codec from
-an in-domain value decodes to that value. -/
-theorem tlb_schema_roundtrip (S : TSchema) (hwf : envOk S.goEnv S.goBodies = true) (t : String)
+/-- the sub-class of the subset on which cells decode back: the descriptors additionally pass C03's decidable
+well-formedness check `envOk` — constructor tags of a type pairwise prefix-free, a type that consumes the rest of the cell
+(`Cell`, and declared types ending in one) only in tail position, key widths known, …. `ok` alone does NOT imply it
+(examples below: overlapping tags `$0`/`$01`; `Cell` before another field); a characterisation of `envOk` in terms of the
+TL-B text is not proved — it is evaluated, per schema (run time: op `tlbs.ok`). -/
+def okRT (S : TSchema) : Bool := S.ok && envOk S.goEnv S.goBodies
+
+/-- **tlb_schema_roundtrip** (from C03's `decode_encode` machinery): for every schema of the round-trip class `okRT`
+and every declared type, a cell produced by the codec from an in-domain value decodes to that value. -/
+theorem tlb_schema_roundtrip (S : TSchema) (hrt : okRT S = true) (t : String)
     (ht : S.typeNames.contains t = true) (fuel : Nat) (v : Val)
     (hd : inDom S.goEnv fuel (.named (idxOf S.typeNames t)) v = true) (b' : Builder)
     (he : encode S.goEnv fuel (.named (idxOf S.typeNames t)) v Builder.empty = .ok b') :
     ∃ rest, decode S.goEnv fuel (.named (idxOf S.typeNames t)) (Slice.ofCell b'.toCell) = .ok (v, rest) := by
+  have hwf : envOk S.goEnv S.goBodies = true := by
+    simp only [okRT, Bool.and_eq_true] at hrt; exact hrt.2
   have hEnv : EnvWF S.goEnv := by
     intro id T hid
     simp only [envOk, List.all_eq_true] at hwf
@@ -95,7 +106,20 @@ def exTlb : TSchema := { decls := [
                { name := "y", ty := .either (.named "Item") (.ref (.named "Item")) }] },
   { ctor := "msg_b", tag := Bits.natToBits 32 0x595f07bc, type := "Msg", fields := [{ name := "n", ty := .natN 5 }] }] }
 
-example : exTlb.ok = true ∧ envOk exTlb.goEnv exTlb.goBodies = true ∧ exTlb.typeNames = ["Item", "Msg"] := by
+example : exTlb.ok = true ∧ okRT exTlb = true ∧ exTlb.typeNames = ["Item", "Msg"] := by
+  decide +kernel
+
+/-- `ok` does not imply `okRT` (1): `a$0 = T; b$01 x:uint8 = T;` — the tags overlap, the decoder cannot tell `a` followed
+by a 1-bit from `b` -/
+def exOverlap : TSchema := { decls := [
+  { ctor := "a", tag := [false], type := "T", fields := [] },
+  { ctor := "b", tag := [false, true], type := "T", fields := [{ name := "x", ty := .uint 8 }] }] }
+
+/-- `ok` does not imply `okRT` (2): `c$_ rest:Cell n:uint8 = U;` — `Cell` swallows the rest of the cell before `n` -/
+def exCellFirst : TSchema := { decls := [
+  { ctor := "c", tag := [], type := "U", fields := [{ name := "rest", ty := .cell }, { name := "n", ty := .uint 8 }] }] }
+
+example : exOverlap.ok = true ∧ okRT exOverlap = false ∧ exCellFirst.ok = true ∧ okRT exCellFirst = false := by
   decide +kernel
 
 end Tongo.C09Tlb
